@@ -55,7 +55,26 @@ MISSED = {
     "C16-4": "both outputs had the same term names and two-conclusion consequents were longer than the token bound; added all (variable, term) pairings with distinct term sets",
     "C17-5": "every formula was loaded into a fresh term; added re-configuring one long-lived term",
     "C17-6": "the variables dictionary was never shared between terms; added a two-term sharing scenario",
+    "C04-6": "operands were always distinct objects; added the same array object as both operands (and float32 / list / matrix operands)",
+    "C05-4": "only float64 ndarrays, floats and 0-d arrays were passed; added list, numpy.matrix and masked-array arguments",
+    "C05-5": "a settings leak (float_type left at float16 after a context that raised): not a hedge defect - caught by C20, not by C05",
+    "C05-6": "no float16 / float32 argument; added (the library must convert to double precision before applying the formula)",
+    "C09-4": "sets were always built from fresh list literals; added a caller list that grows afterwards and a generator",
+    "C09-5": "degree arrays were never modified after the set was built; added an overwrite of the caller's array",
+    "C09-6": "the array returned by Op.midpoints was never modified by the caller; added an in-place change between two defuzzifications",
+    "C10-5": "no total weight in (0, 1e-3]; added sequences of degrees 2^-12 and 2^-13",
+    "C10-6": "all terms had height 1; added a Ramp of height 1/2 with batch degrees",
+    "C11-5": "only the registered term classes were asked; added the wrapper terms Activated and Aggregated (declare vs do)",
+    "C18-4": "the engine was never used before an export; it is now processed to a finite value (lock-previous on) before every export",
+    "C18-6": "every input variable was enabled; added engines whose last input variable is disabled",
+    "C19-4": "the `and` never sat inside the right operand of an `or`; added the `mixed-right` usage",
+    "C19-5": "only the General activation method; added all seven (all for 1-block skeletons, one rotating otherwise)",
+    "C19-6": "every rule was loaded (and Engine.restart reloaded them between rows); added an unloaded rule and stopped restarting",
+    "C20-5": "every scenario started with an existing factory manager; added the state of a freshly imported library (None)",
+    "C20-6": "Op.is_close was observed on operands of magnitude 1 only; added pairs of magnitude 100, 0.01 and 0",
 }
+# changes that belong to another property's mechanism: the check that catches them
+EXTRA = {"C05-5": ["C20"]}
 results = []
 for d in sorted(os.listdir(SRC)):
     m = re.match(r"out_(C\d+)$", d)
@@ -69,10 +88,12 @@ for d in sorted(os.listdir(SRC)):
         if not (os.path.exists(patch) and os.path.exists(demo)):
             continue
         sid = f"{prop}-{n + OFFSET}"
-        r = subprocess.run([os.path.join(VERIF, "tools", "seedcheck.sh"), patch, demo, prop], capture_output=True, text=True)
+        checks = [prop] + EXTRA.get(sid, [])
+        r = subprocess.run([os.path.join(VERIF, "tools", "seedcheck.sh"), patch, demo, *checks], capture_output=True, text=True)
         out = r.stdout + r.stderr
         confirmed = "MUTANT REJECTED" not in out and "suite: passes" in out
-        detected = re.search(rf"{prop} exit=1 (\d+) violation", out) is not None
+        by = [c for c in checks if re.search(rf"{c} exit=1 (\d+) violation", out)]
+        detected = bool(by)
         first = next((ln.strip() for ln in out.splitlines() if ln.startswith("  [")), "")
         print(f"{sid}: confirmed={confirmed} detected={detected}  {first[:140]}", flush=True)
         if not confirmed:
@@ -90,11 +111,11 @@ for d in sorted(os.listdir(SRC)):
                 "tools/seedcheck.sh patch.diff demo.py " + prop,
                 "scratch worktree of /repo: git apply; /venv/bin/python -m pytest -q -p no:cacheprovider --timeout=900 "
                 "(only the baseline failures test_object / test_measure); demo.py exits non-zero with the patch, 0 without",
-                f"git -C /repo apply patch.diff; ./check {prop} quick; git -C /repo checkout -- .",
+                f"git -C /repo apply patch.diff; ./check {' / '.join(checks)} quick; git -C /repo checkout -- .",
             ],
             "suite_passes_with_change": True,
             "demo_fails_with_change_passes_without": True,
-            "detected_by": [prop] if detected else [],
+            "detected_by": by,
             "first_violation": first,
             "missed_at_first": MISSED.get(sid),
         }
